@@ -170,6 +170,17 @@ func (win Window) Print(segs ...Segment) (col int, row int) {
 				// characterWidth will cache the result
 				char.Width = win.Vx.characterWidth(char.Grapheme)
 			}
+			if col+char.Width > cols {
+				// the cluster does not fit in the rest of this row
+				// (a wide cluster in the last column would spill
+				// outside the window): start a new row, or skip it
+				// if no row is wide enough
+				if char.Width > cols {
+					continue
+				}
+				row += 1
+				col = 0
+			}
 			cell := Cell{
 				Character: char,
 				Style:     seg.Style,
@@ -297,6 +308,15 @@ func (win Window) Wrap(segs ...Segment) (col int, row int) {
 					row += 1
 					col = 0
 					continue
+				}
+				if col+char.Width > cols {
+					// see Print: never let a cluster spill
+					// outside the window
+					if char.Width > cols {
+						continue
+					}
+					row += 1
+					col = 0
 				}
 				cell := Cell{
 					Character: char,
